@@ -63,6 +63,68 @@ MUT["C03"] = [
          old2=None, expect="optimize", extra=[("                >= self.options[\"max_fun_evals\"]\n            ):\n                is_finished = True", "                >= max_fe\n            ):\n                is_finished = True")]),
 ]
 
+
+P_CC = "pybads/function_logger/constraints_check.py"
+P_VT = "pybads/variable_transformer/variables_transformer.py"
+CC = "pybads.function_logger.constraints_check.contraints_check"
+VT = "pybads.variable_transformer.variables_transformer.VariableTransformer"
+
+MUT["C10"] = [
+    dict(id="c10-swallow", what="logger swallows the target's exception and returns NaN", path=P_FL, functions=[FL + ".__call__"],
+         old="                    + str(x_orig),\n                )\n            raise", new="                    + str(x_orig),\n                )\n            return np.nan, None, None", expect="target_did_not_raise"),
+    dict(id="c10-count-early", what="func_count incremented before the value is validated", path=P_FL, functions=[FL + ".__call__"],
+         old="        wrong_format_target_function = False\n        try:", new="        self.func_count += 1\n        wrong_format_target_function = False\n        try:", expect="__call__"),
+    dict(id="c10-poll-try", what="poll evaluation wrapped in try/except", path=P_BADS, functions=[B + "._poll_step_"],
+         old="            y_poll, y_sd_poll, f_idx_new = self.function_logger(u_new)\n",
+         new="            try:\n                y_poll, y_sd_poll, f_idx_new = self.function_logger(u_new)\n            except Exception:\n                break\n", expect="target_failure_not_swallowed"),
+    dict(id="c10-retype", what="target exception re-created with type(err)(message)", path=P_FL, functions=[FL + ".__call__"],
+         old="                    + str(x_orig),\n                )\n            raise", new="                    + str(x_orig),\n                )\n            raise type(err)(str(err))", expect="raise::"),
+]
+
+MUT["C12"] = [
+    dict(id="c12-grow-zero", what="cache grows by floor(Xn/2) (0 at Xn=1)", path=P_FL, functions=[FL + "._expand_arrays"],
+         old="resize_amount = int(np.max((np.ceil(self.Xn / 2), 1)))", new="resize_amount = int(np.floor(self.Xn / 2))", expect="grows"),
+    dict(id="c12-yorig-shift", what="original value stored one row off", path=P_FL, functions=[FL + "._record"],
+         old="            self.Y_orig[self.Xn] = fval_orig", new="            self.Y_orig[self.Xn - 1] = fval_orig", expect="_record"),
+    dict(id="c12-nevals-reset", what="observation counts reset on growth", path=P_FL, functions=[FL + "._expand_arrays"],
+         old="        self.n_evals = np.append(\n            self.n_evals, np.zeros([resize_amount, 1]), axis=0\n        )", new="        self.n_evals = np.zeros([self.X.shape[0], 1])", expect="prefix_preserved"),
+    dict(id="c12-flag-missing", what="new record not flagged", path=P_FL, functions=[FL + "._record"],
+         old="            self.X_flag[self.Xn] = True\n", new="", expect="wf"),
+    dict(id="c12-norecord-writes", what="no-record evaluation overwrites the logged value", path=P_FL, functions=[FL + "._record"],
+         old="                self.n_evals[last_idx] += 1\n                return fval_orig, last_idx", new="                self.n_evals[last_idx] += 1\n                self.Y[last_idx] = fval_orig\n                return fval_orig, last_idx", expect="norecord_keeps_log"),
+]
+
+MUT["C17"] = [
+    dict(id="c17-cons-sign", what="constraint filter keeps violators", path=P_CC, functions=[CC], old="        idx = C <= 0", new="        idx = C >= 0", expect="feasible"),
+    dict(id="c17-no-dedupe", what="row de-duplication removed", path=P_CC, functions=[CC],
+         old="    _, idx_sort = np.unique(U_new, axis=0, return_index=True)\n    U_new = U_new[np.sort(idx_sort), :]", new="    idx_sort = np.argsort(U_new[:, 0])\n    U_new = U_new[np.sort(idx_sort), :]", expect="pairwise_distinct"),
+    dict(id="c17-clamp-ub-twice", what="projection clamps to ub twice", path=P_CC, functions=[CC], old="        U_new = np.maximum(np.minimum(U, ub), lb)", new="        U_new = np.maximum(np.minimum(U, ub), ub)", expect="in_box"),
+    dict(id="c17-drop-only-above", what="drop filter ignores the lower bound", path=P_CC, functions=[CC],
+         old="        idx = np.any(U > ub, axis=1) | np.any(U < lb, axis=1)", new="        idx = np.any(U > ub, axis=1)", expect="in_box"),
+    dict(id="c17-single-row-skip", what="constraint filter skipped for single-row sets", path=P_CC, functions=[CC],
+         old="    if non_box_cons is not None:", new="    if non_box_cons is not None and len(U_new) > 1:", expect="feasible"),
+]
+
+MUT["C01"] = [
+    dict(id="c01-inv-no-upper", what="inverse transform clamps only from below", path=P_VT, functions=[VT + ".inverse_transf"],
+         old="        x = np.minimum(\n            np.maximum(x, self.orig_lb), self.orig_ub\n        )", new="        x = np.maximum(x, self.orig_lb)", expect="clamped"),
+    dict(id="c01-fwd-wrong-bound", what="forward transform clamps against the original bounds", path=P_VT, functions=[VT + ".__call__"],
+         old="            np.maximum(y, self.lb), self.ub", new="            np.maximum(y, self.orig_lb), self.orig_ub", expect="clamped"),
+    dict(id="c01-clamp-before-ginv", what="clamp applied to the input instead of the output", path=P_VT, functions=[VT + ".inverse_transf"],
+         old="        x = self.ginv(input)\n        x = np.minimum(\n            np.maximum(x, self.orig_lb), self.orig_ub\n        )", new="        y = np.minimum(np.maximum(input, self.lb), self.ub)\n        x = self.ginv(y)", expect="clamped"),
+    dict(id="c01-target-on-internal", what="target called on internal coordinates", path=P_FL, functions=[FL + ".__call__"],
+         old="            fun_res = self.fun(x_orig)", new="            fun_res = self.fun(x)", expect="target_arg_in_hard_box"),
+    dict(id="c01-result-unclamped", what="result x computed with the raw inverse map", path=P_BADS, functions=[B + ".optimize"],
+         old="        self.x = self.var_transf.inverse_transf(self.u)", new="        self.x = self.var_transf.ginv(np.atleast_2d(self.u))[0]", expect="returned_x_in_hard_box"),
+    dict(id="c01-cons-arg-internal", what="constraint evaluated on internal coordinates", path=P_CC, functions=[CC],
+         old="        C = non_box_cons(X)", new="        C = non_box_cons(U_new)", expect="constraint_arg_in_hard_box"),
+]
+
+
+def scan_c01(index, registry):
+    return scans.target_call_sites(index, registry)
+
+
 PROPS = {
     "C13": dict(
         level="proof",
@@ -73,9 +135,41 @@ PROPS = {
                     "tol_mesh message truth. Preconditions: default improvement policy (no stobads, improvement_quantile 0.5), "
                     "max_poll_grid_number = 0, search_mesh_expand = 0, poll_mesh_multiplier = 2, search_grid_multiplier = 2.",
     ),
+    "C10": dict(
+        level="proof",
+        functions=[FL + ".__call__", B + "._init_mesh_", B + "._init_optimization_", B + "._search_step_", B + "._poll_step_", B + ".optimize"],
+        scans=[scan_c03],
+        mutants=MUT["C10"],
+        explanation="Exceptional contracts: FunctionLogger.__call__ re-raises the target's own exception object (TargetError ghost class, identity kept by "
+                    "the bare raise), counts only calls that returned and were validated, logs nothing on failure; every BADS method that calls the logger "
+                    "is checked with first-class exceptions: no handler on the path (normal exit implies not ghost.target_raised), honest counts on every exceptional exit. "
+                    "Value validation over the kinds model is partial (see assumptions).",
+    ),
+    "C12": dict(
+        level="proof",
+        functions=[FL + "._expand_arrays", FL + "._record", FL + ".__call__"],
+        mutants=MUT["C12"],
+        explanation="Data-structure contracts on the log: well-formedness invariant (equal lengths, X_flag[i] <=> i <= Xn, count), new-record clause over the whole view "
+                    "(new row holds (x_orig, x, value), every earlier row of every array unchanged), no-record clause (arrays unchanged), growth clause (prefix preserved, growth >= 1).",
+    ),
+    "C17": dict(
+        level="proof",
+        functions=[CC],
+        mutants=MUT["C17"],
+        explanation="Postconditions of contraints_check for every candidate array, box, tolerance and log: rows inside the box filtered against (both projection modes), "
+                    "feasible (ghost predicate over points, constraint row-wise deterministic), pairwise distinct; carried through three statement contracts (cuts).",
+    ),
+    "C01": dict(
+        level="proof",
+        functions=[VT + ".inverse_transf", VT + ".__call__", FL + ".__call__", CC, B + ".optimize"],
+        scans=[scan_c01],
+        mutants=MUT["C01"],
+        explanation="Clamp postconditions of both transform directions for every finite input; the single target call site receives inverse_transf(x)[0] (in the hard box for every x); "
+                    "rows handed to non_box_cons by the candidate filter are images of inverse_transf; returned x is an image of inverse_transf.",
+    ),
     "C03": dict(
         level="proof",
-        functions=[B + ".optimize", B + "._search_step_", B + "._poll_step_", B + "._init_optimization_", B + "._init_mesh_"],
+        functions=[B + ".optimize", B + "._search_step_", B + "._poll_step_", B + "._init_optimization_", B + "._init_mesh_", FL + ".__call__"],
         scans=[scan_c03],
         mutants=MUT["C03"],
         explanation="Termination of the real main loop by a lexicographic ranking function (MI-1-poll_iteration, B-fc_round, NT-search_count) "
